@@ -110,8 +110,8 @@ TapAfterRoute(c, br) == IF c.route = "mpc" THEN MpcReadTap(MpcWriteTap(TapOf(c, 
 ExtraFields == {"branch_g", "branch_r_asym", "branch_x_asym", "branch_g_asym", "branch_b_asym"}   \* to_ppc.py:113, from_ppc.py:188-194
 \* REQUIRED: a route carries every extra field.  DEVIATION of the code, named here so that the spec predicts where the
 \* round trip must fail: _copy_data_from_mpc_to_ppc (from_mpc.py:126-145) moves them to ppc["mpc_additional_data"], where
-\* from_ppc does not look (proposed_fixes/C21_1.diff; set CodeDrops("mpc") to {} once that is applied)
-CodeDrops(route) == IF route = "mpc" THEN ExtraFields ELSE {}
+\* from_ppc does not look.  The pinned from_mpc dropped ExtraFields on the "mpc" route; repaired in the repository (known_findings).
+CodeDrops(route) == {}
 FieldsCarried(route) == ExtraFields \ CodeDrops(route)
 \* what the power flow of this configuration depends on but the route drops (REQUIRED: empty)
 Lost(c, s1) == FieldsNeeded(c, s1) \ FieldsCarried(c.route)
